@@ -206,6 +206,12 @@ theorem run_lawful (s : Sess) (ops : List Op) (g : Seg) (hg : g ∈ (run s ops).
             exact Or.inl ⟨by simp, rfl, rfl, by simp⟩
           · simp at hg
       · exact ih _ hg
+    | accept p =>
+      simp only [run, List.mem_append] at hg
+      rcases hg with hg | hg
+      · rw [(acceptOpen_spec s p).2.2.1 g hg]
+        exact Or.inl ⟨by simp, rfl, rfl, by simp⟩
+      · exact ih _ hg
 
 /-- a close request carries no payload -/
 theorem closeReq_payload (s : Sess) (ops : List Op) (g : Seg) (hg : g ∈ (run s ops).1) (hk : g.kind = .closeReq) :
@@ -229,6 +235,11 @@ theorem closeReq_payload (s : Sess) (ops : List Op) (g : Seg) (hg : g ∈ (run s
           · simp only [List.mem_singleton] at hg
             subst hg; rfl
           · simp at hg
+      · exact ih _ hg
+    | accept p =>
+      simp only [run, List.mem_append] at hg
+      rcases hg with hg | hg
+      · rw [(acceptOpen_spec s p).2.2.1 g hg] at hk; cases hk
       · exact ih _ hg
 
 theorem seqs_lt (gs : List Seg) (n0 : Nat) (hseqs : gs.map (·.seq) = List.range' n0 gs.length)
